@@ -226,6 +226,92 @@ def numpy_oracle(seed):
     return n, bad
 
 
+def failed_ops(seed):
+    """after a FAILED operation nothing of the array may stay open - also while
+    the caller still holds the exception object (sys.last_exc in an interactive
+    session does).  Run in a forked child: what a leaked map leads to (truncate,
+    then read through the stale map) kills the interpreter."""
+    import json
+    import darr
+    root = tempfile.mkdtemp(prefix='darrc12f_')
+    r, w = os.pipe()
+    pid = os.fork()
+    if pid == 0:
+        os.close(r)
+        code = 0
+        try:
+            a = darr.asarray(os.path.join(root, 'a'), np.arange(600000, dtype='int64'), accessmode='r+',
+                             metadata={'k': 1})
+            darr.asarray(os.path.join(root, 'b'), [1, 2])
+            ra = darr.asraggedarray(os.path.join(root, 'r'), [[1, 2], [3]])
+            dp = os.path.join(root, 'a', 'arrayvalues.bin')
+            held = []
+            ops = [('copy to an existing path', lambda: a.copy(os.path.join(root, 'b'))),
+                   ('asarray(existing path, Array)', lambda: darr.asarray(os.path.join(root, 'b'), a)),
+                   ('copy with an unsupported dtype', lambda: a.copy(os.path.join(root, 'c'), dtype='bool')),
+                   ('copy onto itself', lambda: a.copy(os.path.join(root, 'a'))),
+                   ('index out of range', lambda: a[10 ** 7]),
+                   ('assignment out of range', lambda: a.__setitem__(10 ** 7, 1)),
+                   ('assignment of an unconvertible value', lambda: a.__setitem__(0, 'x')),
+                   ('iterappend of a bad chunk', lambda: a.iterappend([[1], [[1, 2]]])),
+                   ('append of an unconvertible chunk', lambda: a.append(['x'])),
+                   ('truncate with a float', lambda: darr.truncate_array(a, 1.5)),
+                   ('truncate beyond the end', lambda: darr.truncate_array(a, 10 ** 7)),
+                   ('iterchunks with invalid parameters', lambda: list(a.iterchunks(chunklen=0))),
+                   ('iterchunks abandoned after an exception in the consumer', lambda: _consume(a)),
+                   ('metadata update with an unserialisable value', lambda: a.metadata.update({'k': object()})),
+                   ('readcode of an unknown language', lambda: a.readcode('perl')),
+                   ('archive with a bad compression type', lambda: a.archive(compressiontype='zip'))]
+            for nm, fn in ops:
+                try:
+                    fn()
+                    res = 'no exception'
+                except Exception as e:
+                    held.append(e)
+                    res = type(e).__name__
+                os.write(w, (json.dumps({'op': nm, 'raised': res, 'open': open_handles(dp)}) + '\n').encode())
+            # what a leaked map leads to
+            darr.truncate_array(a, 10)
+            os.write(w, (json.dumps({'op': 'truncate after the failures', 'len': len(a)}) + '\n').encode())
+            v = a[:]
+            os.write(w, (json.dumps({'op': 'read after truncate', 'sum': int(v.sum()), 'n': int(len(v))}) + '\n').encode())
+        except BaseException:
+            os.write(w, (json.dumps({'op': 'harness', 'exception': traceback.format_exc()[-600:]}) + '\n').encode())
+            code = 3
+        os._exit(code)
+    os.close(w)
+    data = b''
+    while True:
+        ch = os.read(r, 65536)
+        if not ch:
+            break
+        data += ch
+    os.close(r)
+    _, status = os.waitpid(pid, 0)
+    shutil.rmtree(root, ignore_errors=True)
+    import signal as _sg
+    lines = [json.loads(x) for x in data.decode().splitlines() if x.strip()]
+    bad = []
+    for ln in lines:
+        if ln.get('open'):
+            bad.append({'op': 'failed operation: ' + ln['op'], 'expected': 'no descriptor or map left open',
+                        'got': '%d left open (exception object still referenced)' % ln['open']})
+        if 'exception' in ln:
+            bad.append({'op': 'harness', 'expected': 'runs', 'got': ln['exception']})
+    if os.WIFSIGNALED(status):
+        bad.append({'op': 'truncate and read after a failed operation', 'expected': 'no crash',
+                    'got': _sg.Signals(os.WTERMSIG(status)).name, 'last': lines[-1] if lines else None})
+    elif not any(ln.get('op') == 'read after truncate' and ln.get('n') == 10 and ln.get('sum') == 45 for ln in lines):
+        bad.append({'op': 'truncate and read after a failed operation', 'expected': 'a[:] = first ten values',
+                    'got': lines[-1] if lines else None})
+    return len(lines), bad
+
+
+def _consume(a):
+    for ch in a.iterchunks(chunklen=1000):
+        raise RuntimeError('consumer fails')
+
+
 def run(tier, seed):
     run = Run('C12', tier, seed, 'model_checking')
     thorough = tier == 'thorough'
@@ -256,6 +342,11 @@ def run(tier, seed):
             sig = 'C12|%s|%s' % (b['op'], 'leak' if 'left open' in str(b.get('got')) else
                                  ('error' if 'err' in str(b.get('expected')) else 'value'))
             run.violation(sig, b, {'kind': 'indexing', 'case': b})
+    n, bad = failed_ops(seed)
+    run.add('failed_operation_probes', n)
+    for b in bad:
+        run.violation('C12|failed-op|%s' % ('crash' if 'crash' in str(b['expected']) else 'leak'), b,
+                      {'kind': 'failed-ops', 'case': b})
     n, bad = numpy_oracle(seed)
     run.add('numpy_oracle_cases_not_spec_decided', n)
     for b in bad:
